@@ -1,6 +1,8 @@
 import UF.Driver.Decode
 import UF.Model.DnsRewriteParse
 import UF.Spec.DnsRewriteShape
+import UF.Model.HostRule
+import UF.Spec.HostLine
 /- Ops of work group H (see notes/AGENT_GUIDE.md). Return `none` for ops of other groups. -/
 namespace UF.Ops
 open UF
@@ -59,10 +61,101 @@ def opC10Shape (args : List W) : String :=
     | _ => "bad-decode"
   | _ => "bad-arity"
 
+/-! ### C18 -/
+
+def encHostRule (h : HostRule) : String :=
+  outList ["H", outBytes h.text, toString h.listID, outList (h.hostnames.map outBytes), encAddr h.ip]
+
+/-- Oracle table for `filterutil.IsDomainName`: `((string bool)…)`. -/
+def decBoolTable (w : W) : Option (List (Bytes × Bool)) := do
+  let xs ← w.list?
+  xs.mapM fun e => match e with
+    | .l [h, b] => do pure (← h.bytes?, ← b.bool?)
+    | _ => none
+
+def isAsciiSpace (c : UInt8) : Bool := c == 9 || c == 10 || c == 11 || c == 12 || c == 13 || c == 32
+
+/-- `strings.TrimSpace` when, after removing ASCII white space from both ends, both end bytes
+    are ASCII (`none` = a byte ≥ 0x80 is reached at an end: Go switches to the Unicode trimming,
+    which is not modelled here). -/
+def trimSpaceAscii (s : Bytes) : Option Bytes :=
+  let t := ((s.dropWhile isAsciiSpace).reverse.dropWhile isAsciiSpace).reverse
+  match t.head?, t.getLast? with
+  | some a, some b => if a < 128 && b < 128 then some t else none
+  | _, _ => some t
+
+def specHostRecord (ext : Ext) (dn : Bytes → Bool) (line : Bytes) : String :=
+  match specHostLine ext dn line with
+  | some (names, a) => tok (encHostRule { text := line, listID := 1, hostnames := names, ip := a })
+  | none => "err"
+
+/-- `c18.hostline <line> <addr table> <dn table>`: `NewHostRule` vs model vs the token reference. -/
+def opC18Hostline (args : List W) : String :=
+  match args with
+  | [line, addrs, dns] =>
+    match line.bytes?, decAddrTable addrs, decBoolTable dns with
+    | some line, some addrs, some dns =>
+      let ext := mkExt [] addrs []
+      let dn := tableLookup dns false
+      encExcept encHostRule (newHostRule ext dn line 1) ++ " " ++ specHostRecord ext dn line
+    | _, _, _ => "bad-decode"
+  | _ => "bad-arity"
+
+/-- `c18.newrule <line> <addr table> <dn table>`: what `NewRule` makes of the line
+    (`skip` | `cos` | `net` | H record).  Spec: for lines outside the carve-out, the hosts reference. -/
+def opC18Newrule (args : List W) : String :=
+  match args with
+  | [line, addrs, dns] =>
+    match line.bytes?, decAddrTable addrs, decBoolTable dns with
+    | some line, some addrs, some dns =>
+      match trimSpaceAscii line with
+      | none => "ood ood"
+      | some line =>
+        let ext := mkExt [] addrs []
+        let dn := tableLookup dns false
+        let m := match newRuleKind ext dn line 1 with
+          | .skipped => "skip" | .cosmetic => "cos" | .network => "net" | .crash => "PANIC"
+          | .host r => tok (encHostRule r)
+        let s := if line.isEmpty || hostLineCarveOut line then "-" else
+          match specHostRecord ext dn line with
+          | "err" => "net"
+          | r => r
+        m ++ " " ++ s
+    | _, _, _ => "bad-decode"
+  | _ => "bad-arity"
+
+/-- `c18.dns <line> <addr table> <dn table> (<queried names>)`: one `DNSEngine` holding the line;
+    per query `<inV4><inV6>`; `nohost` when the line is not a host rule. -/
+def opC18Dns (args : List W) : String :=
+  match args with
+  | [line, addrs, dns, qs] =>
+    match line.bytes?, decAddrTable addrs, decBoolTable dns, qs.bytesList? with
+    | some line, some addrs, some dns, some qs =>
+      match trimSpaceAscii line with
+      | none => "ood ood"
+      | some line =>
+        let ext := mkExt [] addrs []
+        let dn := tableLookup dns false
+        let fmt (f : Bytes → Bool × Bool) : String :=
+          outList (qs.map fun q => let (a, b) := f q; outBool a ++ outBool b)
+        let m := match newRuleKind ext dn line 1 with
+          | .host r => tok (fmt fun q => (r.matches q && r.ip.is4, r.matches q && !r.ip.is4))
+          | _ => "nohost"
+        let s := if line.isEmpty || hostLineCarveOut line then "-" else
+          match specHostLine ext dn line with
+          | some (names, a) => tok (fmt (specHostAnswer names a))
+          | none => "nohost"
+        m ++ " " ++ s
+    | _, _, _, _ => "bad-decode"
+  | _ => "bad-arity"
+
 def dispatchH (op : String) (args : List W) : Option String :=
   match op with
   | "c10.dnsrw" => some (opC10Dnsrw args)
   | "c10.shape" => some (opC10Shape args)
+  | "c18.hostline" => some (opC18Hostline args)
+  | "c18.newrule" => some (opC18Newrule args)
+  | "c18.dns" => some (opC18Dns args)
   | _ => none
 
 end UF.Ops
